@@ -310,6 +310,9 @@ impl Index for HnswIndex {
             }
         }
 
+        // A (re)inserted id is live again
+        self.tombstones.write().remove(&id);
+
         // Check for duplicate ID and update in place if found
         {
             let mut vectors = self.vectors.write();
@@ -360,6 +363,7 @@ impl Index for HnswIndex {
                     ));
                 }
             }
+            self.tombstones.write().remove(id);
             {
                 let mut vectors = self.vectors.write();
                 if let Some(pos) = vectors
